@@ -71,6 +71,24 @@ def scenarios(rng, d):
             for c in "ab":
                 objs.append(asm.write_asm(sub, f"d{i}{c}", f'.globl dupsym_{i}\n.section .text.d{i},"ax",@progbits\ndupsym_{i}: ret\n'))
         out.append((f"duplicate-symbols-{k}", sub, [str(o) for o in objs]))
+    # far more independent errors than any small collector could hold: a bounded, first-come-first-served error queue
+    # would make the reported SET depend on the schedule even if each message is deterministic
+    for k in (40, 200):
+        sub = d / f"dupmany{k}"
+        sub.mkdir()
+        objs = [asm.write_asm(sub, "main", '.globl _start\n_start: ret\n')]
+        for c in "ab":
+            objs.append(asm.write_asm(sub, f"many{c}", "".join(
+                f'.globl dupsym_{i}\n.section .text.d{i},"ax",@progbits\ndupsym_{i}: ret\n' for i in range(k))))
+        out.append((f"duplicate-symbols-{k}", sub, [str(o) for o in objs]))
+    sub = d / "undef40"
+    sub.mkdir()
+    objs = [asm.write_asm(sub, "main", '.globl _start\n.section .text._start,"ax",@progbits\n_start:\n' +
+                          "".join(f"    call f{i}\n" for i in range(40)) + asm.EXIT_X86)]
+    for j in range(4):
+        objs.append(asm.write_asm(sub, f"o{j}", "".join(
+            f'.globl f{i}\n.section .text.f{i},"ax",@progbits\nf{i}:\n    call undefined_sym_{i}\n    ret\n' for i in range(j * 10, j * 10 + 10))))
+    out.append(("undefined-symbols-40", sub, [str(o) for o in objs]))
     for k in (2, 4):
         sub = d / f"ovf{k}"
         sub.mkdir()
